@@ -60,9 +60,16 @@ def gen_grid(rng, spec, tier="quick", complete=False):
     limit = 7 if tier == "quick" else 9
     if len(pts) > limit and not complete:
         pts = sorted(rng.sample(pts, limit))
-    if not complete and rng.random() < 0.15 and pts:
+    if not complete and rng.random() < 0.25 and pts:
         pts = pts + [rng.choice(pts) for _ in range(rng.randint(1, 2))]     # a time point given more than once
-    rng.shuffle(pts)       # grids may be given in any order
+    # grids may be given in any order: shuffled, already increasing (a repeated point then sits next to its twin), or decreasing
+    order = rng.random()
+    if order < 0.5:
+        rng.shuffle(pts)
+    elif order < 0.8:
+        pts = sorted(pts)
+    else:
+        pts = sorted(pts, reverse=True)
     return [fs(p) for p in pts]
 
 
